@@ -601,7 +601,16 @@ func (x *Exec) strEq(a, b string) string {
 		return tAnd(cs...)
 	}
 	x.c.usesStr = true
-	x.c.used["str!ext"] = true
+	// strings are determined by their bytes: the instance of extensionality for this pair (the general
+	// axiom, triggered on every pair of string terms, swamps the solver when many strings are around)
+	key := "strext:" + a + "|" + b
+	bound := strings.Contains(a+" "+b, "q!") || strings.Contains(a+" "+b, "p!") // under a quantifier / in a spec function body: no instance
+	if _, done := x.c.strLits[key]; !done && !bound {
+		x.c.strLits[key] = "1"
+		x.c.assumeDef(tImp(tAnd(tEq(app("slen", a), app("slen", b)),
+			tForall([][2]string{{"i!e", SInt}}, tImp(tAnd(tLe("0", "i!e"), tLt("i!e", app("slen", a))), tEq(app("sat", a, "i!e"), app("sat", b, "i!e"))))),
+			tEq(a, b)))
+	}
 	return tEq(a, b)
 }
 
